@@ -581,6 +581,78 @@ func stressCase(idx int64, r *rand.Rand) {
 	}
 }
 
+// ------------------------------------------------------------------ C': the in-flight gauge at rest after overlapping admission and completion
+
+// gaugeBursts: one holder completes while another caller is being admitted (two goroutines released together; the
+// user's metric registry yields inside the strategy's sample emission, i.e. inside the admission).  After each such
+// pair, at rest, strategy count and limiter gauge must equal the tokens outstanding (1), and 0 after that one completed.
+func gaugeBursts(idx int64, r *rand.Rand) {
+	capacity := 2 + r.IntN(3)
+	reg := inject.NewRecRegistry()
+	var armed atomic.Bool
+	yields := []int{0, 1, 20, 200}[r.IntN(4)]
+	reg.OnSample = func(string, string) {
+		if armed.Load() {
+			for i := 0; i < yields; i++ {
+				runtime.Gosched()
+			}
+		}
+	}
+	var st interface {
+		core.Strategy
+		GetBusyCount() int
+	}
+	kind := "simple"
+	if r.IntN(2) == 0 {
+		st = strategy.NewSimpleStrategyWithMetricRegistry(capacity, reg)
+	} else {
+		st, kind = strategy.NewPreciseStrategyWithMetricRegistry(capacity, reg), "precise"
+	}
+	dl, err := limiter.NewDefaultLimiter(limit.NewFixedLimit("c02", capacity, nil), 1, 1, 0, 10, st, limit.NoopLimitLogger{}, core.EmptyMetricRegistryInstance)
+	if err != nil {
+		panic(err)
+	}
+	cfg := rt.J{"strategy": kind, "capacity": capacity, "registry_yields_in_sample_emission": yields}
+	for round := 0; round < 150; round++ {
+		h, ok := dl.Acquire(context.Background())
+		if !ok {
+			rt.Violation("C02/default+"+kind+"/free-capacity-refused", idx, rt.J{"config": cfg, "round": round})
+			return
+		}
+		armed.Store(true)
+		var l2 core.Listener
+		var ok2 bool
+		bar := make(chan struct{})
+		var wg sync.WaitGroup
+		wg.Add(2)
+		out := r.IntN(3)
+		go func() { defer wg.Done(); <-bar; complete(h, out) }()
+		go func() { defer wg.Done(); <-bar; l2, ok2 = dl.Acquire(context.Background()) }()
+		close(bar)
+		wg.Wait()
+		armed.Store(false)
+		reg.Drain()
+		want := 0
+		if ok2 {
+			want = 1
+		}
+		rt.Count("gauge_at_rest_checks", 1)
+		if b, g := st.GetBusyCount(), dl.VerifInFlight(); b != want || g != int64(want) {
+			rt.Violation("C02/default+"+kind+"/counts-differ-from-outstanding-tokens-at-rest", idx, rt.J{"config": cfg, "round": round, "outstanding": want, "strategy_busy": b, "inflight_gauge": g,
+				"what": "one holder completed while another caller was admitted"})
+			return
+		}
+		if ok2 {
+			complete(l2, r.IntN(3))
+			if b, g := st.GetBusyCount(), dl.VerifInFlight(); b != 0 || g != 0 {
+				rt.Violation("C02/default+"+kind+"/counts-not-zero-after-every-grant-completed", idx, rt.J{"config": cfg, "round": round, "strategy_busy": b, "inflight_gauge": g})
+				return
+			}
+		}
+	}
+	rt.Distinct(fmt.Sprintf("gaugebursts|%v", cfg))
+}
+
 // ------------------------------------------------------------------ D: pools, behaviourally
 
 func poolCase(t *testing.T, idx int64, r *rand.Rand) {
@@ -679,6 +751,8 @@ func TestCheck(t *testing.T) {
 		r := rt.CaseRand(2, idx)
 		rt.Case()
 		switch m := idx % 32; {
+		case m == 7:
+			gaugeBursts(idx, r)
 		case m < 8:
 			sequentialCase(idx, r)
 		case m < 28:
